@@ -219,10 +219,10 @@ def find_top(s, needle):
 def parse_rvalue(s):
     s = s.strip()
     if s.startswith(('copy ', 'move ', 'const ', 'no_retag ')):
-        j = find_top(s, ' as ')
-        if j >= 0:
-            m = re.match(r'^(.*) \((\w+)(?:\(.*\))?\)$', s[j + 4:])
-            return ('cast', parse_operand(s[:j]), m.group(1) if m else s[j + 4:], m.group(2) if m else '')
+        # a cast is `OPERAND as TYPE (Kind)` / `(Kind(..))`; a bare ` as ` also occurs inside `const <Q as Trait>::NAME`
+        m = re.match(r'^(.*) as (.*?) \((\w+)(?:\(.*\))?\)$', s)
+        if m and find_top(s, ' as ') >= 0:
+            return ('cast', parse_operand(m.group(1)), m.group(2), m.group(3))
         return ('use', parse_operand(s))
     if s.startswith('&raw '):
         m = re.match(r'^&raw (const|mut) (.*)$', s)
@@ -536,8 +536,10 @@ def generic_names(gtext):
     names = []
     for part in split_top(gtext):
         part = part.strip()
-        if not part or part.startswith("'") or part.startswith('const '):
+        if not part or part.startswith("'"):
             continue
+        if part.startswith('const '):        # const generic: bound positionally like a type parameter (its argument is ('const', value))
+            part = part[6:]
         names.append(re.match(r'\w+', part).group(0))
     return names
 
